@@ -27,6 +27,14 @@ def tree_variant(exe=None):
     return "asfound"
 
 
+def tree_inject_variant(exe=None):
+    """Does this tree let a datagram of a foreign process through to msg_process (socket transport)?  Decided by what
+    the tree does on the injection witness: 'open' (as found) or 'filtered' (fixes/C05-sock-request-sender-check.patch)."""
+    exe = exe or build()
+    r = C.run_cases(exe, ["\n".join(INJECT_WITNESS) + "\n"], timeout=60)
+    return "open" if any(l.startswith("cb msg") for l in r[0][0]) else "filtered"
+
+
 # ------------------------------------------------------------------ generator
 IDS = [0, 1, 1000, 65534]
 MODES = ["600", "660", "666", "400", "0", "640", "60", "604", "200", "700", "644", "6"]
@@ -142,11 +150,11 @@ def corpus(inject=False):
 
 
 # ------------------------------------------------------------------ execution
-def execute(cases, exe, model, variant):
+def execute(cases, exe, model, variant, inj="open"):
     texts = ["\n".join(c) + "\n" for c in cases]
     impl = C.run_cases(exe, texts, timeout=900)
     mcases = ["\n".join(lines) + "\n" for lines, crash in impl]
-    mod = C.run_cases(model, mcases, timeout=900, env={"C05_VARIANT": variant})
+    mod = C.run_cases(model, mcases, timeout=900, env={"C05_VARIANT": variant, "C05_INJECT": inj})
     if any(crash for _, crash in impl):
         sweep_residue()
     return impl, mod
@@ -368,3 +376,55 @@ def sweep_residue():
                 shutil.rmtree(p, ignore_errors=True)
         except OSError:
             pass
+
+
+# ------------------------------------------------------------------ fault sweep (implementation side only)
+def fault_cases(errnos, kmax=44):
+    """One admission per case with the k-th creating / chmod / chown call made to fail (harness op failnext):
+    exhaustive over k for both transports; a k beyond the last call is a plain admission."""
+    out = []
+    for tr in ("shm", "sock"):
+        for e in errnos:
+            for k in range(1, (kmax if tr == "shm" else 12) + 1):
+                out.append(["svc %s 22" % tr, "beh 0 1000 1000 660", "start 0 1000 1000 1000 1000", "acc",
+                            "failnext %d %d" % (k, e), "auth 0", "fin 0", "kill 0", "t 0", "end"])
+    return out
+
+
+def monitor_fault(lines, crash):
+    """ADMISSION IS ATOMIC UNDER A FAILING FILE-SYSTEM CALL: after the server's step either the connection is
+    established, or nothing of it is left in the file system and the client's connect fails; never a crash, residue or
+    descriptor leak.  (Whether the objects of an established connection have the authorised owner when a chown was made
+    to fail is the non-root case of Properties: not judged here.)  -> (message | None, what-happened)"""
+    if crash:
+        return ("implementation crashed / sanitizer report rc=%s %s" % (crash[0], crash[1][-300:]), "crash")
+    injected = [l for l in lines if "injected-failure" in l]
+    est = None
+    last_fs = None
+    in_auth = False
+    res = None
+    for l in lines:
+        if l.startswith("op "):
+            in_auth = l.startswith("op auth")
+        elif l.startswith("fs") and in_auth:
+            last_fs = l
+        elif l.startswith("chan ") and in_auth:
+            est = l.split()[1] == "1"
+        elif l.startswith("connect "):
+            res = l.split()[2]
+    if not lines or not lines[-1].startswith("end "):
+        return ("log ends without the tear-down summary", "broken")
+    if lines[-1] != "end 0 0":
+        return ("residue / descriptor leak after tear-down: %s (injected: %s)" % (lines[-1], injected), "residue")
+    if est is None or res is None:
+        return ("the admission step did not complete", "broken")
+    if not injected:
+        return (None, "no-failure")
+    what = injected[0].split()[1]
+    if est:
+        return (None, "ignored:" + what)
+    if last_fs is not None and last_fs.strip() != "fs":
+        return ("after a failing %s the connection is not established but objects remain: %s" % (what, last_fs), "residue")
+    if res == "0":
+        return ("after a failing %s the connection is not established but the client's connect returned 0" % what, "connect")
+    return (None, "refused:" + what)
